@@ -203,3 +203,43 @@ func VerifC18_Merge() {
 	verifAgree(dst, dmd, "merged destination")
 	verifAgree(src, smd, "source after merge")
 }
+
+// VerifC18_EvacMark: one step of the incremental-grow bookkeeping from an arbitrary point of a grow of a
+// large table (the look-ahead of advanceEvacuationMark is bounded by a window, so tables larger than the
+// window behave differently from the small ones the other harnesses reach): the old bucket array is released
+// only when every old bucket has been evacuated, and the mark never passes an unevacuated bucket.
+// The state is built directly (no call history): NB old buckets, the mark at a chosen position, the buckets
+// in the look-ahead window evacuated, and symbolic evacuation flags on the buckets that decide the outcome
+// (the bucket under the new mark, the first bucket past the window, the last bucket of the array).
+func VerifC18_EvacMark() {
+	nb := v.Param("NB", 4096)
+	starts := []int{0, nb/2 - 1, nb - 1026, nb - 1025, nb - 2}
+	s := starts[v.Concretize(v.Choice(len(starts)))]
+	old := make([]bucket, nb)
+	for i := range old {
+		old[i].topHash[0] = evacuatedX
+	}
+	sym := []int{s + 1, s + 1 + 1024, nb - 1}
+	for _, p := range sym {
+		if p >= 0 && p < nb {
+			old[p].topHash[0] = v.U8()
+		}
+	}
+	m := &Map{buckets: make([]bucket, 2), oldBuckets: &old, nEvacuate: s}
+	m.advanceEvacuationMark(nb)
+	v.Reach("advanced")
+	v.Assert(m.nEvacuate <= nb, "the mark stays inside the old bucket array")
+	if m.oldBuckets == nil {
+		for _, p := range sym {
+			if p >= 0 && p < nb {
+				v.Assert(evacuated(&old[p]), "the old bucket array is released only when every old bucket has been evacuated")
+			}
+		}
+	} else {
+		for _, p := range sym {
+			if p > s && p < m.nEvacuate && p < nb {
+				v.Assert(evacuated(&old[p]), "the mark never passes a bucket that is not evacuated")
+			}
+		}
+	}
+}
